@@ -1,17 +1,17 @@
 SPECIFICATION Spec
 CONSTANTS
-  D <- D3
-  Members <- All3
-  Ns = {0, 1, 2}
-  MaxIters = {0, 1, 2, 3}
+  D <- D2
+  Members <- All2
+  Ns = {1, 2}
+  MaxIters = {10, 12}
   Kinds = {"and", "or", "not"}
-  Rules = {"asis"}
-  Starts <- D3
+  Rules = {"fixed", "asis"}
+  Starts <- D2
+VIEW NoDraws
+INVARIANT ClaimAndFixed
 INVARIANT ClaimOr
 INVARIANT ClaimNot
 INVARIANT OnePath
 INVARIANT Bounded
 INVARIANT AsIsOnlyUncertifiedChange
-INVARIANT AsIsHoldsForIdempotentHead
-INVARIANT EmitBad
 PROPERTY Progress
